@@ -296,6 +296,15 @@ fn compare_ge(left: &dyn Array, right: &dyn Array) -> Result<BooleanArray> {
 
 /// SIMD-optimized add operation
 pub fn add_simd(left: &dyn Array, right: &dyn Array) -> Result<ArrayRef> {
+    // NULL + x is NULL: the value loops below ignore validity.
+    if (left.null_count() > 0 || right.null_count() > 0)
+        && matches!(left.data_type(), DataType::Int64 | DataType::Float64)
+        && left.data_type() == right.data_type()
+    {
+        return Ok(arrow::compute::kernels::numeric::add_wrapping(
+            &left, &right,
+        )?);
+    }
     match left.data_type() {
         DataType::Int64 => {
             let left_arr = left
@@ -340,6 +349,15 @@ pub fn add_simd(left: &dyn Array, right: &dyn Array) -> Result<ArrayRef> {
 
 /// SIMD-optimized multiply operation
 pub fn multiply_simd(left: &dyn Array, right: &dyn Array) -> Result<ArrayRef> {
+    // NULL * x is NULL: the value loops below ignore validity.
+    if (left.null_count() > 0 || right.null_count() > 0)
+        && matches!(left.data_type(), DataType::Int64 | DataType::Float64)
+        && left.data_type() == right.data_type()
+    {
+        return Ok(arrow::compute::kernels::numeric::mul_wrapping(
+            &left, &right,
+        )?);
+    }
     match left.data_type() {
         DataType::Int64 => {
             let left_arr = left
